@@ -12,6 +12,11 @@ THEOREMS = [
     "C06.quiescent_fire_all_exact",
     "C06.quiescent_fire_all_exact_bound",
     "C06.quiescent_fire_all_exact_iff",
+    "C06.quiescent_fire_all_exact_after_firing",
+    "C06.quiescent_fire_all_exact_after_firing_bound",
+    "C06.loader_exact_on_grl_literals",
+    "C06.loader_negation_kept",
+    "C06.loader_negated_comparison_on_absent_field",
     "C06.quiescent_fire_all_exact_no_size_hypothesis_counterexample",
 ]
 N = {"quick": 1500, "thorough": 20000}
@@ -20,14 +25,26 @@ EXEC_TIMEOUT = 900
 RULE = ("cases = corpus (defect witnesses, corner cases) + N random histories of 2..13 calls (insert / update / retract / fire_all / reset, "
         "including unknown and retracted handles) over <= 6 facts of <= 3 types and 1..3 single-type rules of the typed core; every 50th case is of the family 'many stale / duplicate "
         "activations' (1 or 3..6 facts, 2..4 high-salience rules + one low-salience rule, enough updates for > 1000 activations that are then "
-        "made stale: F-C06b), every 10th of the family 'negated rules on a multi-type store' (F-C06c) "
-        "(alpha nodes with ==,!=,<,<=,>,>= against integer/boolean/string literals or another field, combined by and/or/not; actions: "
+        "made stale: F-C06b), every 10th of the family 'negated rules on a multi-type store' (F-C06c), every 10th of the family 'negated "
+        "comparison on an absent / null / non-numeric field' (`!` applied directly to one comparison, sparse facts with null / string / "
+        "boolean values; mostly quiet rule sets), 2 in 50 of the family 'many rules, two-digit handles' (11..13 quiet rules R0..R12 whose names "
+        "differ in trailing digits only, 11..24 facts, name+handle of two (rule, fact) pairs read the same, the pair queued first made stale), "
+        "2 in 50 of the family 'rules of another fact type re-activated by the re-propagation after a firing' (2..3 types, fire_all, reset, one "
+        "type touched, fire_all) "
+        "(alpha nodes with ==,!=,<,<=,>,>= against integer/float/boolean/string/null literals or another field, combined by and/or/not; actions: "
         "none, assignments of literals to fields of the rule's type, retract of the matched fact). Rules are built through the public "
         "API with exactly the node GrlReteLoader builds and an action closure that records (rule, matched handle, contents of the matched "
-        "fact in the flattened copy) and then does what the GRL closure does. Observables after every call: the result, fire_all's "
+        "fact in the flattened copy) and then does what the GRL closure does. LOADER PATH: every rule of every case is also rendered as GRL text "
+        "and loaded with the real GrlReteLoader::load_from_string into a second IncrementalEngine that is driven through the same calls (its "
+        "closures are the loader's own: fired names per call and all views are observed, no recorder log); the model predicts that engine "
+        "too (C06.loaderRule: the node as written — a negation stays a UlNot node — except that a float literal with an integral value comes "
+        "back as an integer), and the oracle C06.orunG (views, handles, results, known rules, no-loop once, every fired rule satisfied by a "
+        "live fact when no action changes anything, both exactness clauses) and, for quiet rule sets, equality of the fired sets of the two "
+        "engines are evaluated on it. Observables after every call: the result, fire_all's "
         "return value and the recorder log, get / get_by_type / get_all_facts / get_all_handles and the contents of every live fact. "
         "The Spec oracle C06.orun (view agreement, handle freshness, update/retract results, every firing re-evaluated on the recorded "
-        "contents, matched handle live, no-loop once between resets, exactness for quiescent rule sets) is evaluated on the "
+        "contents, matched handle live, no-loop once between resets, exactness for quiescent rule sets when every live fact was touched "
+        "since the last fire_all, and — whatever was touched — for every call that fires at least one rule) is evaluated on the "
         "implementation's observations of every case; model and implementation observations are compared in full on the histories in "
         "which no type ever has two live facts (flag D1: nothing can depend on HashMap iteration order; about 80% of the cases). "
         "Non-trivial = at least one rule fired in a history that also updates or retracts a fact; distinct = distinct case text.")
@@ -35,10 +52,12 @@ TRUSTED = [
     "Lean 4.33 kernel; axioms of every property theorem within {propext, Classical.choice, Quot.sound} (audited each run)",
     "hand-written model RreModel/C06/Model.lean (+ the agenda model of C07) tied to src/rete/{working_memory,propagation,network,alpha,facts}.rs "
     "by the correspondence check only (differential testing)",
-    "harness/src/bin/c06.rs (recorder closure, mimic of the GRL action closure), Driver/C06.lean parsing/printing glue, check.py diff",
+    "harness/src/bin/c06.rs (recorder closure, mimic of the GRL action closure, rendering of a case's rules as GRL text), "
+    "Driver/C06.lean parsing/printing glue, check.py diff",
 ]
 ASSUMPTIONS = [
-    "typed core: integer / boolean / non-numeric string values; integers small enough for exact i64 -> f64 conversion",
+    "typed core: integer / boolean / non-numeric string / null values and floats that are exact halves; integers small enough for exact "
+    "i64 -> f64 conversion",
     "all facts are explicit assertions (the TMS cascade of retract is empty — C08's subject)",
     "HashMap/HashSet iteration order (order of rules/facts during propagation; which fact of a type provides the un-prefixed "
     "`Type.field` keys of the flattened copy) is a free choice of the implementation: the model fixes one, the theorems do not depend "
@@ -70,8 +89,12 @@ LEVEL_TEXT = ("Lean 4 theorems (kernel-checked, unbounded histories) about an ex
               "included) followed by calls other than fire_all that insert or update every live fact, fire_all fires every rule not yet "
               "fired since the last reset that a live fact of its type satisfies, each once, and no other rule, provided there are at most "
               "1000 rules (max_iterations; after fix-C06b only executed activations are counted, so stale or duplicate pending "
-              "activations no longer matter; the bound itself is still needed: counterexample theorem). The oracle "
-              "clause exactOk is still evaluated on every applicable run.")
+              "activations no longer matter; the bound itself is still needed: counterexample theorem). "
+              "quiescent_fire_all_exact_after_firing drops the freshness hypothesis for every call that fires at least one rule (the global "
+              "re-propagation after a firing queues every unfired rule on every live fact that satisfies it). The GRL loader is modelled by "
+              "C06.loaderRule (loader_exact_on_grl_literals, loader_negation_kept, loader_negated_comparison_on_absent_field) and tied to "
+              "src/rete/grl_loader.rs by running every case through GrlReteLoader in a second engine. The oracle "
+              "clauses exactOk / exactAfterOk are evaluated on every applicable run of both engines.")
 LEVEL_NOTE = ("Trusted: Lean kernel + {propext, Classical.choice, Quot.sound}; hand-written model tied to the code by differential testing "
               "only; recorder closure mimics the GRL action closure. quiescent_fire_all_exact carries the explicit hypotheses: contents are maps (one "
               "binding per field), every live fact inserted/updated since the last fire_all, at most 1000 rules.")
